@@ -5,8 +5,8 @@ from ..interp_prop import InterpProp, ev_delay
 
 class C05(InterpProp):
     id = 'C05'
-    quick_cases = 200
-    thorough_cases = 5000
+    quick_cases = 800
+    thorough_cases = 30000
     n_ops = 60
     rule = ('random charts with sending actions (with and without delay), always-enabled eventless transitions and '
             'events nobody reacts to × histories interleaving queue (delays 0..3, equal due times frequent), clock '
